@@ -126,13 +126,25 @@ def run(ctx, report):
         else:
             R2.violation('dict_size[%s]' % k, 'dict_size:%s' % k, 'struct format of %s is %r, expected %r' % (k, ds.get(k), f),
                          where(M.reg, M.reg.method('afs_desc', '__init__')))
-    # get_im_fmt: ims -> signed formats keyed by the mode argument
+    # get_im_fmt, evaluated on se x w8 x mode x kind: ims -> signed formats of the operand size, w8 -> one byte
     gif = arch.method('x86allmncs', 'get_im_fmt')
-    text = u(gif)
-    if "fmt, t = ('i', s32)" in text and "fmt, t = ('h', s16)" in text and "fmt, t = ('b', s08)" in text:
-        R2.ok('get_im_fmt', sample='get_im_fmt: ims -> i/h, w8 ims -> b')
+    tab = M.im_fmt_table()
+    afs_ = M.afs
+    want_im = {}
+    for mode, (fu, tu, fs, ts) in ((afs_.u32, ('I', E['u32'], 'i', E['s32'])), (afs_.u16, ('H', E['u16'], 'h', E['s16']))):
+        want_im[(False, False, mode, 'imm')] = ({'I': 4, 'H': 2}[fu], fu, tu)
+        want_im[(False, False, mode, 'ims')] = ({'i': 4, 'h': 2}[fs], fs, ts)
+        want_im[(False, True, mode, 'imm')] = (1, 'B', E['u08'])
+        want_im[(False, True, mode, 'ims')] = (1, 'b', E['s08'])
+        for w8_ in (False, True):
+            for kind in ('imm', 'ims'):
+                want_im[(True, w8_, mode, kind)] = (1, 'b', E['s08'])
+    bad_im = [(k, tab.get(k), w) for k, w in sorted(want_im.items(), key=str) if tab.get(k) != w]
+    if not bad_im:
+        R2.ok('get_im_fmt', sample='get_im_fmt evaluated on %d combinations: ims -> i/h by the mode argument, w8 ims -> b, se -> b' % len(want_im))
     else:
-        R2.violation('get_im_fmt', 'get_im_fmt:signed', 'get_im_fmt no longer maps ims to signed formats', where(arch, gif))
+        k, got, w = bad_im[0]
+        R2.violation('get_im_fmt', 'get_im_fmt:signed', 'get_im_fmt(se=%s, w8=%s, mode=%s, %s) gives %s; the immediate is read as %s' % (k[0], k[1], k[2], k[3], got, w), where(arch, gif))
     # _dis: narrowing of s32 under 16-bit operand size
     dis = arch.method('x86_mn', '_dis')
     found = None
